@@ -786,3 +786,51 @@ func replySubjectFact(v ssa.Value, truth bool) (known, nonEmpty bool) {
 	}
 	return false, false
 }
+
+// emptinessFact: the bool value v is a test of a string for emptiness - `x ==
+// ""`, `x != ""`, `len(x) == 0`, `len(x) < 1`, `len(x) > 0`, `len(x) >= 1` ... -
+// of a string accepted by isSubject. nonEmptyWhenTrue says which way it reads.
+func emptinessFact(v ssa.Value, isSubject func(ssa.Value) bool) (known, nonEmptyWhenTrue bool) {
+	bo, ok := v.(*ssa.BinOp)
+	if !ok {
+		return false, false
+	}
+	x, y, op := bo.X, bo.Y, bo.Op
+	if _, isC := x.(*ssa.Const); isC {
+		x, y = y, x
+		switch op {
+		case token.LSS:
+			op = token.GTR
+		case token.GTR:
+			op = token.LSS
+		case token.LEQ:
+			op = token.GEQ
+		case token.GEQ:
+			op = token.LEQ
+		}
+	}
+	if k, isC := core.ConstString(y); isC && k == "" && isSubject(x) {
+		switch op {
+		case token.EQL:
+			return true, false
+		case token.NEQ:
+			return true, true
+		}
+		return false, false
+	}
+	lc, isCall := x.(*ssa.Call)
+	if !isCall || core.CalleeName(lc) != "builtin:len" || !isSubject(lc.Call.Args[0]) {
+		return false, false
+	}
+	k, isC := core.ConstInt(y)
+	if !isC {
+		return false, false
+	}
+	switch {
+	case k == 0 && op == token.EQL, k == 0 && op == token.LEQ, k == 1 && op == token.LSS:
+		return true, false
+	case k == 0 && op == token.NEQ, k == 0 && op == token.GTR, k == 1 && op == token.GEQ:
+		return true, true
+	}
+	return false, false
+}
